@@ -3,6 +3,7 @@ COQ_PROPS = "Properties/C09.v"
 JUDGE = "Judge.C09"
 DRIVER = "c09"
 SHARD = 60
+SEARCH_ROUNDS = 2
 
 # a panic in mosdns code (not in the harness) during the scripted runs is a failing history of this property
 CRASH_VIOLATION = [
@@ -13,7 +14,7 @@ CRASH_VIOLATION = [
 def driver_args(tier, seed, phase):
     a = []
     if phase == "search":
-        a += ["-n", "1500" if tier == "quick" else "20000"]
+        a += ["-n", "300" if tier == "quick" else "6000"]
     return a
 
 
